@@ -161,7 +161,8 @@ func (s *Sandbox) blobPut(ls *lua.LState) int {
 	var d digest.Digest
 	s.log.Debug("Put blob",
 		slog.String("script", s.name),
-		slog.String("ref", r.r.CommonName()))
+		slog.String("ref", r.r.CommonName()),
+		slog.Bool("dry-run", s.dryRun))
 
 	if ls.GetTop() < 2 {
 		ls.ArgError(2, "blob content expected")
@@ -189,6 +190,17 @@ func (s *Sandbox) blobPut(ls *lua.LState) int {
 		ls.ArgError(2, "blob content expected")
 	}
 
+	if s.dryRun {
+		// compute the descriptor without sending the blob
+		digester := digest.Canonical.Digester()
+		n, err := io.Copy(digester.Hash(), rdr)
+		if err != nil {
+			ls.RaiseError("Failed to read blob: %v", err)
+		}
+		ls.Push(lua.LString(digester.Digest().String()))
+		ls.Push(lua.LNumber(n))
+		return 2
+	}
 	dOut, err := s.rc.BlobPut(s.ctx, r.r, descriptor.Descriptor{Digest: d}, rdr)
 	if err != nil {
 		ls.RaiseError("Failed to put blob: %v", err)
